@@ -20,9 +20,18 @@ type sqlxConn = sqlx.SqlConn
 const burstWatchdog = 90 * time.Second
 
 // qErr is the error of one failing query execution (distinct per execution).
-type qErr struct{ qid int64 }
+type qErr struct {
+	qid   int64
+	inner error // negative control: the not-found look-alike the query reported an absent row with
+}
 
-func (e *qErr) Error() string { return fmt.Sprintf("verif: database error of query %d", e.qid) }
+func (e *qErr) Error() string {
+	if e.inner != nil {
+		return fmt.Sprintf("verif: query %d: %v", e.qid, e.inner)
+	}
+	return fmt.Sprintf("verif: database error of query %d", e.qid)
+}
+func (e *qErr) Unwrap() error { return e.inner }
 
 // qRec is one execution of a query closure.
 type qRec struct {
@@ -36,12 +45,17 @@ type qRec struct {
 
 // rRec is one reader call.
 type rRec struct {
-	ID       int    `json:"reader"`
-	Kind     string `json:"kind"` // read | readexp | index
-	Key      string `json:"key"`
-	Late     bool   `json:"late"`
-	Conn     int    `json:"conn"` // which of the burst's caches / cached conns the reader goes through
-	Ctx      string `json:"ctx"`  // kind of the reader's context (cancelled after its call returned unless background/values)
+	ID   int    `json:"reader"`
+	Kind string `json:"kind"` // read | readexp | index
+	Key  string `json:"key"`
+	Late bool   `json:"late"`
+	Conn int    `json:"conn"` // which of the burst's caches / cached conns the reader goes through
+	Ctx  string `json:"ctx"`  // kind of the reader's context (cancelled after its call returned unless background/values)
+	// what the caller does with the object it handed to the read once the read returned:
+	// overwrite every field (Scribble) and read another key into it (Reuse: reader ReuseBy)
+	Scribble bool `json:"scribbles_over_its_result_after_return,omitempty"`
+	ReuseBy  int  `json:"then_reads_another_key_into_it_as_reader,omitempty"`
+	ReuseOf  int  `json:"reuses_the_object_of_reader"` // -1: an object of its own
 	st       store
 	Inv, Ret uint64
 	Got      row    `json:"got"`
@@ -60,6 +74,18 @@ type burstDB struct {
 	gated  atomic.Int64 // queries that wait for the gate (the first ones)
 	failP  float64
 	nfPK   func(int) any // primary key of a slot (index queries return it)
+	shape  string        // the shape in which the queries report an absent row (nfshape_test.go)
+}
+
+// scribble is what a caller leaves in the object it read into, once it has taken its result out.
+func scribble(id int) row {
+	return row{ID: int64(-7000000 - id), SID: fmt.Sprintf("scribbled-by-reader-%d", id), Name: "scribbled", Val: int64(-7000000 - id),
+		Pad: "scribbled over by the caller after its read had returned"}
+}
+
+// scribbled: does any field of r come from a caller's scribbling?
+func scribbled(r row) bool {
+	return r.ID <= -7000000 || r.Val <= -7000000 || strings.HasPrefix(r.SID, "scribbled") || r.Name == "scribbled" || strings.HasPrefix(r.Pad, "scribbled")
 }
 
 func (d *burstDB) query(rr *rRec, key string, slot int, val any, coin float64) (any, error) {
@@ -76,9 +102,12 @@ func (d *burstDB) query(rr *rRec, key string, slot int, val any, coin float64) (
 	var err error
 	switch {
 	case d.mode == "error" || d.mode == "mixed" && coin < d.failP:
-		q.Outcome, err = "error", &qErr{q.Qid}
+		q.Outcome, err = "error", &qErr{qid: q.Qid}
+	case (d.mode == "notfound" || slot < 0) && negShape(d.shape):
+		// negative control: not the configured not-found error, hence a database error
+		q.Outcome, err = "error", &qErr{qid: q.Qid, inner: shapeNF(d.shape, d.nf, key)}
 	case d.mode == "notfound" || slot < 0:
-		q.Outcome, err = "notfound", d.nf
+		q.Outcome, err = "notfound", shapeNF(d.shape, d.nf, key)
 	default:
 		q.Outcome = "row"
 		q.Row = row{ID: int64(1000000 + slot), SID: fmt.Sprintf("u%d", slot), Name: names[slot], Val: q.Qid, Pad: fmt.Sprintf("q%d", q.Qid)}
@@ -129,6 +158,7 @@ func burst(w *world, c *kit.Case) {
 	nKeys := 1 + r.Pick(3, 1)
 	d := &burstDB{mode: strings.TrimSuffix(mode, "-writes-fail"), nf: h.st.notFound(), gauges: map[string]*kit.Gauge{}, gate: make(chan struct{}), failP: 0.5}
 	d.nfPK = h.db.pk
+	d.shape = genShape(r)
 	d.gated.Store(int64(r.Range(1, 2)))
 	if mode == "outage" {
 		for _, n := range h.nodes {
@@ -161,6 +191,7 @@ func burst(w *world, c *kit.Case) {
 		rr.Conn = r.Intn(len(h.sts))
 		rr.st = h.sts[rr.Conn]
 		rr.Ctx = []string{ctxBG, ctxCancel, ctxDeadline, ctxValues}[r.Pick(3, 4, 2, 1)]
+		rr.Scribble, rr.ReuseOf = r.Chance(0.75), -1
 		readers[i] = rr
 		coins[i] = []float64{r.Float64(), r.Float64(), r.Float64()}
 		delays[i] = time.Duration(r.Intn(1500)) * time.Microsecond
@@ -168,11 +199,24 @@ func burst(w *world, c *kit.Case) {
 		d.gauges[h.I(names[slot])] = &kit.Gauge{}
 	}
 	hold := time.Duration(r.Intn(3000)) * time.Microsecond
+	// some of the callers that scribble go on to read another key (one the burst does not read
+	// otherwise) into the same object; these reads are readers of their own (appended)
+	if nKeys < nSlots {
+		for i := 0; i < nReaders; i++ {
+			if rr := readers[i]; rr.Scribble && r.Chance(0.4) {
+				ru := &rRec{ID: len(readers), Kind: "read", Key: h.P(nSlots - 1), Late: true, Conn: rr.Conn, st: rr.st, Ctx: rr.Ctx,
+					Scribble: true, ReuseOf: rr.ID}
+				rr.ReuseBy = ru.ID
+				readers = append(readers, ru)
+				d.gauges[ru.Key] = &kit.Gauge{}
+			}
+		}
+	}
 
 	var invoked atomic.Int64
 	var wg sync.WaitGroup
 	released := make(chan struct{})
-	for i, rr := range readers {
+	for i, rr := range readers[:nReaders] {
 		wg.Add(1)
 		go func(i int, rr *rRec) {
 			defer wg.Done()
@@ -191,17 +235,29 @@ func burst(w *world, c *kit.Case) {
 			nq := 0
 			coin := func() float64 { nq++; return coins[i][(nq-1)%3] }
 			ctx, after := opCtx(rr.Ctx, h.prefix)
+			tgt := new(row) // the object this caller reads into
 			rr.Inv = kit.Stamp()
 			invoked.Add(1)
 			switch rr.Kind {
 			case "index":
-				rr.Got, rr.err = burstIndex(ctx, h, d, rr, slot, coin)
+				rr.Got, rr.err = burstIndex(ctx, h, d, rr, slot, coin, tgt)
 			case "readexp":
-				rr.Got, rr.err = burstRead(ctx, h, d, rr, slot, coin, true)
+				rr.Got, rr.err = burstRead(ctx, h, d, rr, slot, coin, true, tgt)
 			default:
-				rr.Got, rr.err = burstRead(ctx, h, d, rr, slot, coin, false)
+				rr.Got, rr.err = burstRead(ctx, h, d, rr, slot, coin, false, tgt)
 			}
 			rr.Ret = kit.Stamp()
+			// the result has been taken out (rr.Got is a copy): the object is the caller's again
+			if rr.Scribble {
+				*tgt = scribble(rr.ID)
+			}
+			if rr.ReuseBy > 0 {
+				ru := readers[rr.ReuseBy]
+				ru.Inv = kit.Stamp()
+				ru.Got, ru.err = burstRead(ctx, h, d, ru, nSlots-1, coin, false, tgt)
+				ru.Ret = kit.Stamp()
+				*tgt = scribble(ru.ID)
+			}
 			after()
 		}(i, rr)
 	}
@@ -238,35 +294,34 @@ func burst(w *world, c *kit.Case) {
 
 func writesFail(mode string) bool { return strings.HasSuffix(mode, "-writes-fail") }
 
-func burstRead(ctx context.Context, h *hist, d *burstDB, rr *rRec, slot int, coin func() float64, exp bool) (row, error) {
-	var v row
+// burstRead reads rr.Key into *v (the caller's object) and returns a copy of what the read left there.
+func burstRead(ctx context.Context, h *hist, d *burstDB, rr *rRec, slot int, coin func() float64, exp bool, v *row) (row, error) {
 	var err error
 	switch st := rr.st.(type) {
 	case *cacheStore:
 		if exp {
-			err = st.c.TakeWithExpireCtx(ctx, &v, rr.Key, func(val any, _ time.Duration) error {
+			err = st.c.TakeWithExpireCtx(ctx, v, rr.Key, func(val any, _ time.Duration) error {
 				_, e := d.query(rr, rr.Key, slot, val, coin())
 				return e
 			})
 		} else {
-			err = st.c.TakeCtx(ctx, &v, rr.Key, func(val any) error {
+			err = st.c.TakeCtx(ctx, v, rr.Key, func(val any) error {
 				_, e := d.query(rr, rr.Key, slot, val, coin())
 				return e
 			})
 		}
 	case *sqlStore:
-		err = st.cc.QueryRowCtx(ctx, &v, rr.Key, func(_ context.Context, _ sqlxConn, val any) error {
+		err = st.cc.QueryRowCtx(ctx, v, rr.Key, func(_ context.Context, _ sqlxConn, val any) error {
 			_, e := d.query(rr, rr.Key, slot, val, coin())
 			return e
 		})
 	}
-	return v, err
+	return *v, err
 }
 
-func burstIndex(ctx context.Context, h *hist, d *burstDB, rr *rRec, slot int, coin func() float64) (row, error) {
-	var v row
+func burstIndex(ctx context.Context, h *hist, d *burstDB, rr *rRec, slot int, coin func() float64, v *row) (row, error) {
 	st := rr.st.(*sqlStore)
-	err := st.cc.QueryRowIndexCtx(ctx, &v, rr.Key, h.keyer,
+	err := st.cc.QueryRowIndexCtx(ctx, v, rr.Key, h.keyer,
 		func(_ context.Context, _ sqlxConn, val any) (any, error) {
 			return d.query(rr, rr.Key, slot, val, coin())
 		},
@@ -274,7 +329,7 @@ func burstIndex(ctx context.Context, h *hist, d *burstDB, rr *rRec, slot int, co
 			_, e := d.query(rr, h.keyer(primary), h.db.slotOf(primary), val, coin())
 			return e
 		})
-	return v, err
+	return *v, err
 }
 
 var _ = errors.Is
